@@ -22,7 +22,8 @@ RULE = ("29 (start state, call) cases covering store_object (new / duplicate / e
         "normal return only with the fault-free API-observable post-state; after a failed store/tag the pid is "
         "unbound (or its earlier binding intact) and an immediate retry succeeds and is retrievable; after a failed "
         "store_metadata the previous version is served; bystanders (pid ref, retrieve bytes, listed exactly once, "
-        "metadata) unchanged. distinct_nontrivial = distinct (case, site index, errno, persistence) runs in which "
+        "metadata) unchanged. In addition every storing call is run in a child process under RLIMIT_FSIZE for 9 limits "
+        "around the data size (the kernel fails or cuts the writes: a real disk-full style fault). distinct_nontrivial = distinct (case, site index, errno, persistence) runs in which "
         "the fault actually fired.")
 ASSUMPTIONS = ["the probe intercepts every file-system call of the code under test: audited on every run against strace "
                "(one canonical script; the sequence of mutating system calls on store paths must equal the probe's trace)",
@@ -45,7 +46,38 @@ def fault_shards(tier, seed):
 
 
 def shards(tier, seed):
-    return [("audit",)] + [("fault",) + a for a in fault_shards(tier, seed)]
+    idxs = [i for i, c in enumerate(F.CASES) if c[1]["op"] in ("store", "smeta")]
+    return [("audit",)] + [("fault",) + a for a in fault_shards(tier, seed)] + \
+        [("fsize", c, tier) for c in chunk(idxs, 4 if tier == "quick" else 8)]
+
+
+def run_fsize_shard(case_idxs, tier):
+    """Kernel-level short writes: each storing call under RLIMIT_FSIZE for several limits."""
+    res = ShardResult()
+    for ci in case_idxs:
+        for variant in range(1 if tier == "quick" else 3):
+            scratch = new_scratch("fsize")
+            try:
+                case = F.Case(ci, scratch, variant=variant)
+                data_len = len(case.contents[case.call["content"]]) if case.call["op"] == "store" else len(case.docs[case.call["doc"]])
+                limits = sorted({1, 63, 100, 4096, 5000, 8192, max(1, data_len - 1), data_len, data_len + 4096})
+                for lim in limits:
+                    r, probs = F.run_fsize_limit(case, lim)
+                    res.evaluations += 1
+                    res.count("fsize_limited_runs")
+                    res.count("fsize_limited_calls_raised" if not r["ok"] else "fsize_limited_calls_ok")
+                    res.distinct.add(repr(("fsize", ci, variant, lim)))
+                    for symptom, detail in probs:
+                        sig = {"symptom": symptom, "call": op_shape(case.call), "call_kind": case.call["op"], "case": case.label,
+                               "site": "write-cut-short-by-RLIMIT_FSIZE", "persistent": True, "after_both_refs_written": False,
+                               "limit_vs_data": "below" if lim < data_len else "at-or-above"}
+                        res.violation(sig, {"engine": "fsize", "case_index": ci, "variant": variant, "limit": lim,
+                                            "data_len": data_len, "outcome": r, "detail": jsonable(detail)})
+            except Inconclusive as inc:
+                res.inconclusive.append(str(inc))
+            finally:
+                rmtree(scratch)
+    return res
 
 
 def run_audit_shard():
@@ -160,6 +192,8 @@ def _after_both_refs(case, inj):
 def run_shard(kind, *args):
     if kind == "audit":
         return run_audit_shard()
+    if kind == "fsize":
+        return run_fsize_shard(*args)
     return run_fault_shard(*args)
 
 
